@@ -121,6 +121,15 @@ def weights(rng, n, kind):
         w = [0.0] * n
         for j in rng.sample(range(n), rng.randint(2, min(4, n))):
             w[j] = rng.choice([0.125, 0.25, 0.0625])
+    elif kind == "microall":   # every weight positive but far below any absolute tolerance: still a weight
+        w = [rng.choice([1e-9, 5e-9, 2.0 ** -30, 3e-10]) for _ in range(n)]
+    elif kind == "microgap":   # unit weights, a zero-weight run, and one barely-weighted observation inside the run
+        w = [1.0] * n
+        L = rng.randint(2, n - 2)
+        a = rng.randint(0, n - L)
+        for j in range(a, a + L):
+            w[j] = 0.0
+        w[rng.randint(a, a + L - 1)] = rng.choice([1e-9, 5e-9, 2.0 ** -30])
     else:  # long zero runs at start / end / interior
         w = [1.0] * n
         L = rng.randint(1, n - 2)
@@ -157,18 +166,20 @@ def gen_cases(tier, seed):
     # exact leg: small and medium n, all weight kinds
     for _ in range(60 if quick else 500):
         n = rng.choice([4, 4, 5, 5, 6, 7, 8, 9, 12, 16, 24] + ([] if quick else [32, 48, 64]))
-        kind = rng.choice(["ones", "rand01", "frac", "lead", "trail", "mid", "tiny"])
+        kind = rng.choice(["ones", "rand01", "frac", "lead", "trail", "mid", "tiny", "microall", "microgap"])
         lam = rng.choice([Fraction(1, 2), Fraction(10) ** rng.choice(lam_exps[:8]), Fraction(rng.randint(1, 999), rng.choice([1, 7, 1000]))])
         y = [Fraction(rng.randint(-10000, 10000), rng.choice([1, 1, 3])) for _ in range(n)]
-        w = [Fraction(v).limit_denominator(10) for v in weights(rng, n, kind)]
+        w = [Fraction(v) if kind.startswith("micro") else Fraction(v).limit_denominator(10) for v in weights(rng, n, kind)]
         add({"op": "exact", "y": [core.rat(v) for v in y], "w": [core.rat(v) for v in w], "lam": core.rat(lam), "wkind": kind})
     # float leg: compiled kernel
     sizes = [4, 5, 6, 7, 8, 10, 16, 24, 32, 48] if quick else [4, 5, 6, 7, 8, 10, 16, 24, 32, 48, 64, 96, 128]
     for _ in range(240 if quick else 1500):
         n = rng.choice(sizes)
-        kind = rng.choice(["ones", "rand01", "frac", "lead", "trail", "mid", "tiny"])
+        kind = rng.choice(["ones", "rand01", "frac", "lead", "trail", "mid", "tiny", "microall", "microgap"])
         lam = 10.0 ** rng.choice(lam_exps) * rng.choice([1.0, 1.0, rng.uniform(1, 10)])
         lam = min(max(lam, 1e-6), 1e8)
+        if kind == "microall":
+            lam = rng.choice([1e-6, 2e-6, 1e-5])     # keeps 16 lam / mean(w) (the conditioning) moderate
         add({"op": "float", "y": [fl(v) for v in data(n)], "w": [fl(v) for v in weights(rng, n, kind)], "lam": fl(lam), "wkind": kind})
     if not quick:
         for n in (200, 300, 400):
@@ -203,14 +214,19 @@ def model_check(rep, tier):
     # (done on the trace side by corrupting a recorded trace, see binding demo below)
 
 
-def binding_demo(rep, cases):
-    """a pristine exact trace must be accepted, one corrupted cell must be rejected"""
-    base = next(c for c in cases if c["op"] == "exact" and len(c["y"]) >= 6)
+def binding_demo(rep, cases, verdicts):
+    """an accepted exact trace stays accepted, each single corrupted cell is rejected (the demonstration needs
+    accepted traces to start from: on a tree that violates the property everywhere it is skipped, the violations speak)"""
+    ok = lambda c: verdicts.get(c["tid"], ("",))[0] == "ACCEPT"  # noqa: E731
+    base = next((c for c in cases if c["op"] == "exact" and len(c["y"]) >= 6 and ok(c)), None)
+    fb = next((c for c in cases if c["op"] == "float" and ok(c)), None)
+    if base is None or fb is None:
+        rep.notes.append("binding demo skipped: no accepted exact / float trace to corrupt")
+        return
     bad1 = json.loads(json.dumps(base))
     bad1["d"][3] = core.rat(Fraction(bad1["d"][3]) + Fraction(1, 10**9))
     bad2 = json.loads(json.dumps(base))
     bad2["z"][2] = core.rat(Fraction(bad2["z"][2]) + 1)
-    fb = next(c for c in cases if c["op"] == "float")
     bad3 = json.loads(json.dumps(fb))
     zmax = max(abs(Fraction(s)) for s in bad3["z"]) or Fraction(1)
     bad3["z"][1] = core.rat(Fraction(bad3["z"][1]) + zmax * Fraction(3, 10**6))
@@ -241,8 +257,8 @@ def run(tier, seed):
     rep.matchers["c01_ill_conditioned"] = m_illcond
     model_check(rep, tier)
     cases = [execute(c) for c in gen_cases(tier, seed)]
-    binding_demo(rep, cases)
     verdicts, st = core.validate_batch(MODULE, cases, cfg=CFG, per_jvm=120, timeout=6000, heap="4g")
+    binding_demo(rep, cases, verdicts)
     rep.add_stats("TraceWs2d", st, len(cases))
     rep.extra.update(
         distinct_nontrivial=len({json.dumps([c["y"], c["w"], c["lam"], c["op"]]) for c in cases}),
